@@ -390,7 +390,8 @@ func (c Col) FromNative(x interface{}) Val {
 
 // ToOvs builds the OVS-notation value (as used inside ovsdb.Row / Operation).
 func (c Col) ToOvs(v Val) interface{} {
-	switch c.K {
+	// by the value's own kind, so that ill-typed values can be injected
+	switch v.K {
 	case 'a':
 		return v.A.Ovs()
 	case 'o':
